@@ -562,6 +562,53 @@ def _replay_c03(prop, harness, rec):
     return {"status": "not_reproduced", "detail": "reported length and drain matched the pushes in every run (the race is probabilistic)", "out": o}
 
 
+@replayer("c03_ws_len_after_")
+def _replay_c03_seq(prop, harness, rec):
+    """Sequential bookkeeping of the plain queue (deterministic): the shared queue's reported length after the pop that
+    consults it first / after a local overflow, compared with what its own pop() drains."""
+    kind = 0 if "shared_first" in harness else 1
+    outs = []
+    for pre in ((1, 2, 3) if kind == 0 else (0, 1, 2)):
+        r = run_case(["ws_seq", kind, pre], 60)
+        if "error" in r:
+            return {"status": "unavailable", "detail": r["error"]}
+        o = r["out"]
+        if o is None:
+            return {"status": "unavailable", "detail": f"native case crashed: {r['stderr_tail'][-200:]}"}
+        outs.append(o)
+        if o["reported_len"] != o["expected"] or o["drained_by_pop"] != o["expected"]:
+            what = "the 61st local pop took one of them" if kind == 0 else "a full local queue (capacity 2) overflowed into it"
+            return {"status": "reproduced", "out": o,
+                    "detail": f"shared queue held {o['pre']} item(s), {what}: it now reports {o['reported_len']} and pop() drains "
+                              f"{o['drained_by_pop']}, expected {o['expected']}"}
+    return {"status": "not_reproduced", "detail": "reported length and drain matched in every sequential scenario", "out": outs}
+
+
+@replayer("c20_remaining_waiter")
+def _replay_c20_remaining(prop, harness, rec):
+    """Reader and writer wait for one socket; one gives up and drops its interest; the socket then becomes ready for the other:
+    woken by readiness it is back within milliseconds, otherwise only when its own 2 s wait expires."""
+    outs = []
+    for dw in (1, 0):
+        r = run_case(["remaining_waiter", dw], 60)
+        if "error" in r:
+            return {"status": "unavailable", "detail": r["error"]}
+        o = r["out"]
+        if o is None:
+            return {"status": "unavailable", "detail": f"native case crashed: {r['stderr_tail'][-200:]}"}
+        outs.append(o)
+        if not o["quitter_done"] or o["stayer_back_before_ready"]:
+            return {"status": "unavailable", "detail": f"native scenario did not set up as intended: {o}"}
+        if not o["stayer_back"] or o["latency_us"] > 500_000:
+            who = "reader" if dw else "writer"
+            gone = "writer" if dw else "reader"
+            return {"status": "reproduced", "out": o,
+                    "detail": f"after the {gone} dropped its interest, the {who} still waiting for the socket came back "
+                              f"{o['latency_us']}us after the socket became ready (readiness wake: milliseconds; its own timeout: 2 s)"}
+    return {"status": "not_reproduced", "out": outs,
+            "detail": "the remaining waiter was woken by readiness in both variants: latencies " + ", ".join(str(o["latency_us"]) + "us" for o in outs)}
+
+
 def _ows_ops(rec, with_final):
     prio = _int(rec, 0)
     a, b, c, d = (_int(rec, i, signed=False) for i in (1, 2, 3, 4))
@@ -672,6 +719,20 @@ def _replay_c02_race(prop, harness, rec):
         return {"status": "reproduced", "out": o,
                 "detail": f"{o['joins_that_waited_the_whole_timeout']} of {o['tasks']} joins slept their whole {o['timeout_ms']} ms timeout although the task had run"}
     return {"status": "unavailable", "out": o, "detail": "the interleaving did not occur in 3000 native joins (probabilistic); solver counterexample only"}
+
+
+@replayer("c13_cancel_then_drop")
+def _replay_c13_drop(prop, harness, rec):
+    r = run_case(["pool_cancel", "drop"], 60)
+    if "error" in r:
+        return {"status": "unavailable", "detail": r["error"]}
+    o = r["out"]
+    if o is None:
+        return {"status": "unavailable", "detail": f"native case crashed: {r['stderr_tail'][-200:]}"}
+    ran = o["cancelled_then_handle_dropped"]["ran"]
+    st = "reproduced" if ran else "not_reproduced"
+    return {"status": st, "out": o,
+            "detail": f"a queued task was cancelled, its handle dropped (clean_task_result), then the pool scheduled: the task body ran {ran} time(s)"}
 
 
 @replayer("c13_waiter_of_a_cancelled_task")
